@@ -50,6 +50,8 @@ def shards(tier: str) -> int:
 # reference analysis: is the forest of some word infinite?
 
 def infinitely_ambiguous(spec: dict[str, Any]) -> bool:
+    if spec.get("directed"):
+        return False  # see directed(): finite by construction ({n,} is unrolled up to the repetition limit)
     sem = S.Sem(spec)
     found = False
 
@@ -152,6 +154,8 @@ def left_recursive(spec: dict[str, Any]) -> bool:
 
 
 def known_class(spec: dict[str, Any], kind: str) -> Any:
+    if spec.get("directed"):
+        return "prefix-mode" if kind.startswith("prefix") else None
     if infinitely_ambiguous(spec):
         return "infinite-ambiguity"
     if kind.startswith("prefix") and (left_recursive(spec) or has_unbounded_or_recursion(spec)):
@@ -211,7 +215,52 @@ def ingredients(draw: Any) -> dict[str, Any]:
     return {"spec": spec, "shape": shape, "enum_idx": draw(st.lists(st.integers(0, 10**6), max_size=6))}
 
 
+DIRECTED_BOUND = 40000
+HEAVY = 80000  # requests whose derived bound exceeds this are skipped and counted
+
+
+@st.composite
+def directed(draw: Any) -> dict[str, Any]:
+    """Two shapes the general generator does not reach.
+    open_nullable: x{n,} over an empty-deriving operand.  The parser unrolls {n,} up to the repetition limit (20), so
+        the forests are finite (unlike x* over the same operand); the reference count W does not model the unrolling,
+        so these cases get the fixed bound DIRECTED_BOUND (observed: <= 3500 states for inputs of <= 2 characters).
+    leftrec_crep: a computed-bound repetition reachable from a left-recursive rule (while such a repetition is
+        predicted the parser rebuilds the tree of the prefix by walking from the current state up to the start state)."""
+    if draw(st.booleans()):
+        body = draw(st.sampled_from([["opt", ["lit", "x"]], ["nt", "a"], ["alt", [["lit", "z"], ["lit", ""]]],
+                                     ["rep", ["lit", "x"], 0, 2]]))
+        rep = ["rep", body, draw(st.integers(0, 3)), None]
+        tail = draw(st.sampled_from([[], [["lit", "y"]], [["nt", "a"]]]))
+        head = draw(st.sampled_from([[], [["lit", "y"]]]))
+        parts = head + [rep] + tail
+        rules = [["start", ["seq", parts] if len(parts) > 1 else rep], ["a", ["opt", ["lit", "x"]]]]
+        inputs = ["", "x", "y", "z", "xy", "yx", "xx", "yy", "zy", "yxy"][: 6 + draw(st.integers(0, 4))]
+        return {"spec": {"rules": rules, "mode": "text", "alphabet": "xyz", "directed": "open_nullable"},
+                "shape": "open_nullable", "inputs": inputs}
+    rec = draw(st.sampled_from([
+        ["alt", [["seq", [["nt", "list"], ["nt", "item"]]], ["nt", "item"]]],
+        ["alt", [["nt", "item"], ["seq", [["nt", "list"], ["lit", ","], ["nt", "item"]]]]],
+        ["alt", [["seq", [["nt", "list"], ["nt", "list"]]], ["nt", "item"]]],
+    ]))
+    item = draw(st.sampled_from([
+        ["seq", [["nt", "len"], ["crep", ["nt", "c"], "int(<len>)"]]],
+        ["seq", [["nt", "len"], ["lit", ":"], ["crep", ["nt", "c"], "int(<len>)"], ["lit", ";"]]],
+    ]))
+    rules = [["start", ["nt", "list"]], ["list", rec], ["item", item],
+             ["len", ["alt", [["lit", "0"], ["lit", "1"], ["lit", "2"]]]], ["c", ["alt", [["lit", "a"], ["lit", "b"]]]]]
+    sep = ":" if len(item[1]) == 4 else ""
+    end = ";" if sep else ""
+    comma = "," if rec[1][1][0] == "seq" and len(rec[1][1][1]) == 3 else ""
+    recs = [f"0{sep}{end}", f"1{sep}a{end}", f"2{sep}ab{end}"]
+    inputs = ["", recs[1], recs[2], recs[1] + comma + recs[0], recs[2] + comma + recs[1], "1", f"2{sep}a{end}", "a", recs[1] + comma]
+    return {"spec": {"rules": rules, "mode": "text", "alphabet": "ab012", "directed": "leftrec_crep"},
+            "shape": "leftrec_crep", "inputs": inputs[: 5 + draw(st.integers(0, 4))]}
+
+
 def build_case(ing: dict[str, Any]) -> dict[str, Any]:
+    if "inputs" in ing:
+        return ing
     spec = ing["spec"]
     alpha = spec["alphabet"][:2]
     inputs = ["".join(t) for n in range(0, 4) for t in itertools.product(alpha, repeat=n)]
@@ -235,6 +284,8 @@ def budget(spec: dict[str, Any], sem: Any, inp: str, kind: str, inf: bool) -> tu
     derivations of the input (finitely ambiguous grammars); fixed for the known classes."""
     if inf:
         return KNOWN_CLASS_STATES, 0
+    if spec.get("directed"):
+        return DIRECTED_BOUND, 0
     _, w, conv = sem.derivation_counts(inp)
     if not conv:
         return MAX_STATES, w
@@ -256,6 +307,8 @@ def run_request(f: Any, kind: str, inp: str, max_states: int = MAX_STATES) -> tu
     from fandango.language.grammar import ParsingMode
 
     with Fuel(max_states, 10**9) as fuel:
+        # derivation-tree nodes built: observed <= 7.7 per admitted state on terminating requests
+        fuel.max_nodes = 20 * max_states + 50000
         if kind == "first":
             t = f.grammar.parse(inp)
             n = 0 if t is None else 1
@@ -267,6 +320,7 @@ def run_request(f: Any, kind: str, inp: str, max_states: int = MAX_STATES) -> tu
             n = sum(1 for _ in itertools.islice(f.parse(inp, prefix=True), 1))
         else:
             n = sum(1 for _ in itertools.islice(f.parse(inp), TREE_CAP))
+    run_request.last_nodes = fuel.nodes  # type: ignore[attr-defined]
     return n, fuel.states, fuel.children
 
 
@@ -289,6 +343,11 @@ def check_case(case: dict[str, Any], ctx: Any = None) -> list[str]:
                 continue  # one exemplar per known class and spec; keep the budget for the rest
             f = S.load(spec)  # fresh object: no cache effects between requests
             bud, w = budget(spec, sem, inp, kind, kc is not None)
+            if bud > HEAVY:
+                # finitely but heavily ambiguous: the derived bound is beyond what a quick run can afford
+                if ctx is not None:
+                    ctx.count("skipped_heavy_ambiguity")
+                continue
             try:
                 n, states, children = run_request(f, kind, inp, bud)
             except FuelExhausted as e:
@@ -302,6 +361,8 @@ def check_case(case: dict[str, Any], ctx: Any = None) -> list[str]:
                     known_hit.add(kc)
                 if ctx is not None:
                     ctx.count(f"budget_hit:{kc or 'UNEXPECTED'}")
+                if not kc:
+                    return msgs  # one unexpected hit decides the case; further diverging requests only cost time
                 continue
             except RecursionError:
                 if ctx is not None:
@@ -317,6 +378,10 @@ def check_case(case: dict[str, Any], ctx: Any = None) -> list[str]:
                     ctx.notes["max_fraction_of_bound_used"] = max(ctx.notes.get("max_fraction_of_bound_used", 0), ratio)
                 if n < TREE_CAP:
                     ctx.notes["max_states_terminating"] = max(ctx.notes.get("max_states_terminating", 0), states)
+                    ctx.notes["max_tree_nodes_per_state"] = max(ctx.notes.get("max_tree_nodes_per_state", 0),
+                                                                round(getattr(run_request, "last_nodes", 0) / max(states, 1), 1))
+                    ctx.notes["max_tree_nodes_terminating"] = max(ctx.notes.get("max_tree_nodes_terminating", 0),
+                                                                  getattr(run_request, "last_nodes", 0))
                     ctx.notes["max_children_terminating"] = max(ctx.notes.get("max_children_terminating", 0), children)
                 else:
                     ctx.count("forest_cut_at_cap")
@@ -342,7 +407,7 @@ def evidence_extra(cov: dict[str, Any]) -> dict[str, Any]:
 def run_shard(ctx: Any) -> None:
     n = 5 if ctx.tier == "quick" else 300
 
-    @given(ingredients())
+    @given(st.one_of(ingredients(), ingredients(), ingredients(), directed()))
     def test(ing: dict[str, Any]) -> None:
         case = build_case(ing)
         msgs = check_case(case, ctx)
